@@ -242,7 +242,7 @@ def run(ctx):
                 if _transfer(ctx, line, src, rng.choice([0, 5]), rng.choice(header_only), False) == "dead":
                     line = _new_line()
     ctx.exhaustive["corruption_position_of_two_fixed_messages"] = True
-    n = 300 if ctx.quick else 2500
+    n = 300 if ctx.quick else 10000
     max_blocks = 3 if ctx.quick else 40
     for i in range(n):
         src = "H" if i % 2 == 0 else "E"
